@@ -8,7 +8,7 @@ from .containers import CaseInsensitiveDict
 from .deferred import Promise, wait, BaseDeferred, Deferred, SizedDeferred, DeferredCycle, try_compute, Progress
 from .devices import open_device
 from .formats import file_formats, ImageTooLarge
-from .metacommand_impl import get_as_int, describe_int
+from .metacommand_impl import get_as_int, describe_int, wait_for
 from . import operators
 from .types import Instruction, Label, Assignment, InstructionPointer, WordList, ParenthesizedExpression, CodeBlock
 from . import reports
@@ -116,7 +116,21 @@ class Compiler:
                             def closure(insn, old_addr, state):
                                 nonlocal data, addr
                                 def fn():
-                                    old_addr_value = wait(old_addr)
+                                    try:
+                                        old_addr_value = wait(old_addr)
+                                    except DeferredCycle:
+                                        # The link base is being worked out through
+                                        # this very gap ('.link K + e - s' with the
+                                        # skip between s and e). A target relative to
+                                        # '.' still has a definite distance.
+                                        length = wait_for(insn.value, insn.value.resolve(state) - old_addr)
+                                        if length < 0:
+                                            reports.error(
+                                                "value-out-of-bounds",
+                                                (insn.ctx_start, insn.ctx_end, f"The new link address is lower than the previous one: a negative skip of {describe_int(-length)} bytes was attempted")
+                                            )
+                                            raise reports.RecoverableError("A negative value was passed when an unsigned value was expected") from None
+                                        return b"\x00" * length
                                     # An address, not a signed number: -2 is not 177776
                                     new_addr_value = get_as_int(state, "link address", state["insn"], insn.value, bitness=16, unsigned=True)
                                     length = new_addr_value - old_addr_value
